@@ -22,24 +22,16 @@ func checkEthHeadPointer(c *core.Ctx) {
 		return
 	}
 	litOf := func(ci ssa.CallInstruction) string {
-		// key = ConcatKey(contract, []byte(LIT), …)
+		// key = ConcatKey(contract, []byte(LIT), …), written inline or by a key helper: the first
+		// literal of the key's shape
 		if len(ci.Common().Args) < 2 {
 			return ""
 		}
-		ck, _ := ir.CallOf(ci.Common().Args[1])
-		if ck == nil || ir.CalleeObj(ck) == nil || ir.CalleeObj(ck).Name() != "ConcatKey" {
+		sh, err := eng.ShapeOf(c.P, ci.Common().Args[1])
+		if err != nil {
 			return ""
 		}
-		for _, e := range eng.VariadicElems(ck.Common().Args[len(ck.Common().Args)-1]) {
-			v := e
-			if cv, ok := v.(*ssa.Convert); ok {
-				v = cv.X
-			}
-			if k, ok := v.(*ssa.Const); ok && k.Value != nil && k.Value.Kind() == constant.String {
-				return constant.StringVal(k.Value)
-			}
-		}
-		return ""
+		return sh.LeadingLit()
 	}
 	mainLit, err1 := c.P.Const(pkHSCom, "MAIN_CHAIN")
 	curLit, err2 := c.P.Const(pkHSCom, "CURRENT_HEADER_HEIGHT")
